@@ -2609,4 +2609,19 @@ theorem context_case_insensitive (fold ren : Str → Str) (hren : ∀ n, fold (r
     simp [renF, plainOf_ren]
   simp only [build, htimes, hts, hhist, run_ren fold ren hren, hrem]
 
+/-! ## processes are counted, not their texts -/
+
+/-- **identical contents, distinct processes.** `contextAt` / `baseAt` are lists of processes (one entry per
+`TemporalEvent`), so two Duration processes whose contents print the same (same text id `7`) are both listed:
+overlapping in time (started at 0 s and 1 s, both ongoing at 2 s), and started at the same time point from two
+rows with equal onsets (both in `base` of the first row and in the contexts that follow). -/
+theorem identical_processes_both_listed :
+    (∃ b, build id [⟨0, [.duration 24 7], []⟩, ⟨8, [.duration 24 7], []⟩, ⟨16, [], []⟩] = .ok b ∧
+      contexts b = [[], [7], [7, 7]] ∧ base b = [[7], [7], []] ∧
+      specContext (spec id [⟨0, [.duration 24 7], []⟩, ⟨8, [.duration 24 7], []⟩, ⟨16, [], []⟩] b) 16 = [7, 7]) ∧
+    (∃ b, build id [⟨0, [.duration 24 7], []⟩, ⟨0, [.duration 16 7], []⟩, ⟨8, [], []⟩] = .ok b ∧
+      contexts b = [[], [7, 7], [7, 7]] ∧ base b = [[7, 7], [], []]) :=
+  ⟨⟨⟨[0, 8, 16], [⟨0, 0, some 3, [], 7⟩, ⟨1, 1, some 3, [], 7⟩], [[], [], []]⟩, by rfl, by decide, by decide, by decide⟩,
+   ⟨⟨[0, 0, 8], [⟨0, 0, some 3, [], 7⟩, ⟨1, 0, some 3, [], 7⟩], [[], [], []]⟩, by rfl, by decide, by decide⟩⟩
+
 end HedVerif.C20
